@@ -22,8 +22,8 @@ def bounds(tier):
     return dict(sizes_C_D_N=SIZES[tier], floors=["scalar", "vector", "matrix"], dask_chunkings="all compositions of N")
 
 
-def sc_density(B, C, D, N, floor):
-    m, P = make_gmm(B, C, D, floor)
+def sc_density(B, C, D, N, floor, order="floors-first"):
+    m, P = make_gmm(B, C, D, floor, order=order)
     X = B.arr("x", (N, D))
     from symexec.engine import Outcome
 
@@ -104,6 +104,8 @@ def job_tail_concrete(P, C, D, N, setting):
 
 def job_density(P, C, D, N, floor):
     P.run("density", sc_density, dict(C=C, D=D, N=N, floor=floor))
+    for order in ("floors-last", "floors-after-use"):
+        P.run("density-" + order, sc_density, dict(C=C, D=D, N=N, floor=floor, order=order), validate=1)
 
 
 def job_dask(P, C, D, N, chunks):
